@@ -22,6 +22,7 @@ type vhDualSpec struct {
 	c4, c6 bool // cluster IP families
 	req    []string // explicitly requested addresses
 	rec    []string // recorded addresses that must survive a restart
+	both   bool     // addresses requested in two places at once: refused, the Service stays pending
 }
 
 func vhIsV4(ip net.IP) bool { return ip.To4() != nil }
@@ -30,7 +31,8 @@ func vhIsV4(ip net.IP) bool { return ip.To4() != nil }
 // symbolic IP family policy and cluster-IP families on one pool holding both families. layout 0: two
 // addresses per family; 1: one IPv4 address and two IPv6 addresses (IPv4 can run out). recorded 1: the
 // first Service starts with a recorded IPv4 address; 2: and (if dual-stack) requests that address plus a
-// specific IPv6 address.
+// specific IPv6 address; 5: the first Service (IPv4) requests different addresses in spec.loadBalancerIP
+// and in the loadBalancerIPs annotation (either spelling).
 func VerifControllerDual(nsvc, layout, recorded int) {
 	c4, c6 := "10.0.0.0/31", "fd00::/127"
 	if layout == 1 {
@@ -100,6 +102,13 @@ func VerifControllerDual(nsvc, layout, recorded int) {
 			svc.Annotations[AnnotationLoadBalancerIPs] = []string{"10.0.0.0", "fd00::"}[vr.Choose(2)]
 			s.req = []string{svc.Annotations[AnnotationLoadBalancerIPs]}
 		}
+		if recorded == 5 && i == 0 && s.c4 && !s.c6 {
+			// the user asks in two places at once (spec.loadBalancerIP and the annotation, either spelling)
+			// for different, allocatable addresses
+			svc.Spec.LoadBalancerIP = "10.0.0.1"
+			svc.Annotations[[]string{AnnotationLoadBalancerIPs, DeprecatedAnnotationLoadBalancerIPs}[vr.Choose(2)]] = "10.0.0.0"
+			s.both = true
+		}
 		if recorded == 2 && i == 0 && s.c4 && s.c6 {
 			// the user asks for the address held plus a specific address of the other family
 			svc.Annotations[AnnotationLoadBalancerIPs] = "10.0.0.0,fd00::1"
@@ -154,6 +163,11 @@ func VerifControllerDual(nsvc, layout, recorded int) {
 			}
 			vr.Assert(same, "a Service lost or changed its recorded, still admissible addresses across a restart")
 		}
+		if s.both {
+			vr.Assert(len(ips) == 0, "a Service that requests addresses in two places at once was given an address")
+			vr.Reach("conflicting request refused")
+			continue
+		}
 		if len(s.req) > 0 && len(ips) > 0 {
 			okReq := len(ips) == len(s.req)
 			for _, r := range s.req {
@@ -190,7 +204,7 @@ func VerifControllerDual(nsvc, layout, recorded int) {
 		cap6 = 1
 	}
 	for i, s := range specs {
-		if len(api.objs[s.name].Status.LoadBalancer.Ingress) != 0 || len(s.req) > 0 {
+		if len(api.objs[s.name].Status.LoadBalancer.Ingress) != 0 || len(s.req) > 0 || s.both {
 			continue // explicit requests are satisfied exactly or not at all
 		}
 		free4, free6 := cap4-held4 > 0, cap6-held6 > 0
